@@ -107,3 +107,51 @@ MANIFEST_TEXT.update({
                 technique=DSIM + "store-seam leak monitor + reader nodes with key configurations in E0"),
 })
 NOT_APPLICABLE[:] = [x for x in NOT_APPLICABLE if x["property_id"] not in PROPS]
+
+E2_RULE = ("source logs are built by a fault-free E0 world (4-30 events: appends with pointer counts up to 64, live joins, in-memory deliveries; forks, diamonds, "
+           "shared writers); then 2-5 load scenarios run under the fetch driver, which picks from the tape which parked block request completes next and which "
+           "finished worker enters the fetcher's critical section (policy: uniform / workers first / requests first), with concurrency 1-6 or default. "
+           "Non-trivial = the driver had a real choice or a fault fired; distinct = distinct event-log digests.")
+
+
+def e2(prop, extra, level="exploration", **kw):
+    d = dict(engine="E2", variant="plain", level=level, quick_s=40, thorough_s=600, rule=E2_RULE + " " + extra,
+             assumptions=["executions in which a second worker overtakes the woken main loop of the fetcher are not explored (DESIGN.md 3.4)",
+                          "timeouts are modelled as context cancellation injected by the driver", "sampling, not enumeration"])
+    d.update(kw)
+    return d
+
+
+PROPS.update({
+    "C09": e2("C09", "Oracle: log rebuilt by each of the four loaders has the same id, entries, heads, manifest heads and (strict orders) values as the source.",
+              expected_probes=["reload-multi-head", "fetch-main-blocked-on-semaphore"]),
+    "C10": e2("C10", "Limits 0..size+2; each (source, loader, limit) is loaded 2-3 times under different completion orders/concurrency; oracle: exactly min(max(n,k),size) entries = supplied + most recent others, never above the limit, identical across orders (which-ones skipped when a comparator tie sits on the cut).",
+              expected_probes=["limit-zero", "limit-beyond-size", "fetch-main-blocked-on-semaphore"]),
+    "C11": e2("C11", "Fault plan per scenario: none / one / few / many blocks, kinds notfound, error, undecodable, stall; excluded hashes; random or forced cancellation. Oracle: result == model closure over next and refs along retrievable non-excluded entries (subset when cancelled), no duplicate entry, no duplicate or excluded request, termination, nothing outstanding at return.",
+              level="fault_enumeration", expected_probes=["fetch-cancelled", "fault-cuts-off-history", "fetch-main-blocked-on-semaphore"]),
+    "C12": e2("C12", "One stored block (manifest, head, root, anywhere) is corrupted at rest: structure-level (22 field paths x absent/null/two wrong types/extra/empty), bit flip, truncation, garbage, or another well-formed object; decoded in-process (every accessor, comparator, Verify exercised on whatever comes back) and loaded through the loaders under the driver; oracle: no panic (in-process or worker death), load succeeds and returns exactly the remaining retrievable history.",
+              level="fault_enumeration", expected_probes=["corrupt-block-still-decodes"]),
+    "C20": dict(engine="E3", variant="plain", level="exploration", quick_s=30, thorough_s=300,
+                rule="keystore worlds: 1-3 (later more) keystore instances over one fault-injecting datastore, 8-32 events from {create, get, has, open new instance, bulk-create 129+ keys to overflow the LRU, CreateIdentity twice on the same/different instances}, Put/Get I/O errors; after every event every sampled id is checked on every instance against a map model. Non-trivial = a fault fired, an instance was opened or the cache overflowed.",
+                assumptions=["keys come from crypto/rand: relations are compared, never key bytes", "keystore operations are atomic events (Keystore is not goroutine-safe by contract)"],
+                expected_probes=["lru-eviction", "identity-across-instances"]),
+})
+
+MANIFEST_TEXT.update({
+    "C09": dict(text="Reloads of simulated log states through all four loaders with the block-completion order, worker admission order and concurrency decided by the tape; rebuilt log compared with the source.",
+                design_ref="DESIGN.md 3.4, 5 C09", note="Completion orders are sampled; overtaking of the woken fetcher main loop is not explored.",
+                technique=DSIM + "E2 fetch driver (tape-ordered completion of parked block requests) with source-equality oracle"),
+    "C10": dict(text="Length-limited loads for every limit from 0 to beyond the size, repeated under different tape-chosen completion orders; exact expected set from the model and direct schedule-independence comparison.",
+                design_ref="DESIGN.md 3.4, 5 C10", note="The which-entries part is skipped when a comparator tie sits on the cut (count still checked).",
+                technique=DSIM + "E2 fetch driver with model of the most-recent set and cross-schedule comparison"),
+    "C11": dict(text="Per generated stored log, faulty block subsets of each kind (absent, error, undecodable, stalled), exclusions, concurrency and completion orders are drawn from the tape; result compared with the model's reachable closure, request log checked, termination enforced by the driver (stuck or leaking fetch = violation).",
+                design_ref="DESIGN.md 3.4, 5 C11", note="Stalled blocks end by injected cancellation; virtual-time Timeout (synctest) variant is not built, see DESIGN.md.",
+                technique=DSIM + "E2 fetch driver with block-fault injection, reachable-set model and request-log oracle"),
+    "C12": dict(text="At-rest corruption of one block per scenario, enumerated over field paths x mutation kinds plus byte-level damage, checked in-process and through every loader; worker-process death is attributed to the run and reported.",
+                design_ref="DESIGN.md 3.4, 5 C12", note="Blocks are stored under their original cid (the simulated store does not re-verify hashes, like a faulty or malicious gateway).",
+                technique=DSIM + "E2 corrupt-at-rest fault injection, crash-surviving parent process as panic oracle"),
+    "C20": dict(text="Seeded operation sequences across keystore instances sharing a datastore (restart, LRU overflow, I/O errors) against a map model; identities re-created and cross-verified.",
+                design_ref="DESIGN.md 3.5, 5 C20", note="Operations are atomic events; keys are random so only relations are compared.",
+                technique=DSIM + "E3 keystore world with datastore fault injection and map reference model"),
+})
+NOT_APPLICABLE[:] = [x for x in NOT_APPLICABLE if x["property_id"] not in PROPS]
